@@ -65,8 +65,21 @@ def compositions(draw, max_len=60, min_len=1):
     return (P, M, N - P - M)
 
 
-CLASSES = ["idp", "polyampholyte", "polyelectrolyte", "uncharged", "lowcomplexity", "veryshort",
-           "boundary", "uniform"]
+CLASSES = ["idp", "idp", "idp", "polyampholyte", "polyampholyte", "polyelectrolyte", "polyelectrolyte", "uncharged",
+           "lowcomplexity", "veryshort", "boundary", "boundary", "uniform", "uniform"]
+
+
+@st.composite
+def lengths(draw, min_len, max_len):
+    """Length mixture: short, medium and long lengths each get a fair share (st.text alone is biased to tiny)."""
+    lo, hi = min_len, max(min_len, max_len)
+    bands = [(lo, min(hi, 8)), (min(hi, max(lo, 5)), min(hi, 30)), (min(hi, max(lo, 30)), hi), (lo, hi)]
+    a, b = draw(st.sampled_from(bands))
+    return draw(st.integers(a, max(a, b)))
+
+
+def exact_words(alphabet, n):
+    return st.text(alphabet=alphabet, min_size=n, max_size=n)
 
 
 @st.composite
@@ -74,28 +87,27 @@ def sequences(draw, max_len=60, min_len=1, classes=None):
     """A valid sequence from one of the composition classes of DESIGN 3.1."""
     cls = draw(st.sampled_from(classes or CLASSES))
     hi = max(min_len, max_len)
+    n = draw(lengths(min_len, hi))
     if cls == "idp":
         alpha = "KRDE" * 3 + "GSPQNTA" * 2 + AA
-        return draw(words(alpha, min_len, hi))
+        return draw(exact_words(alpha, n))
     if cls == "polyampholyte":
-        return draw(words("KRDE", min_len, hi))
+        return draw(exact_words("KRDE", n))
     if cls == "polyelectrolyte":
         ch = draw(st.sampled_from([POS, NEG]))
-        return draw(words(ch * 2 + NEUTRAL, min_len, hi))
+        return draw(exact_words(ch * 2 + NEUTRAL, n))
     if cls == "uncharged":
-        return draw(words(NEUTRAL, min_len, hi))
+        return draw(exact_words(NEUTRAL, n))
     if cls == "lowcomplexity":
         letters = draw(st.lists(st.sampled_from(AA), min_size=1, max_size=3))
         unit = draw(words(letters, 1, 6))
-        reps = draw(st.integers(1, max(1, hi // max(1, len(unit)))))
-        s = (unit * reps)[:hi]
-        return s if len(s) >= min_len else (s * min_len)[:max(min_len, 1)]
+        return (unit * (n // len(unit) + 1))[:n]
     if cls == "veryshort":
         return draw(words(AA, min_len, max(min_len, min(hi, 7))))
     if cls == "boundary":
         P, M, Z = draw(compositions(max_len=hi, min_len=min_len))
         return draw(by_composition(P, M, Z))
-    return draw(words(AA, min_len, hi))
+    return draw(exact_words(AA, n))
 
 
 def classify(seq):
